@@ -26,6 +26,10 @@ def gen_case(ctx, i):
     maps = pc.gen_maps(r, kind)
     thr = float(THRS[int(r.integers(0, len(THRS)))])
     patch = int(r.choice([2, 3, 4, 5, 7]))
+    if i % 40 == 7:  # a large batch: 500-2000 local peaks refined in one call (counts that are not multiples of a block size)
+        kind = "many"
+        maps = r.random((int(r.integers(6, 11)), int(r.integers(6, 11)), int(r.integers(10, 15)), int(r.integers(10, 15))))
+        thr = float(r.choice([0.0, 0.2, 0.5]))
     f64 = bool(r.random() < 0.15)
     if f64:  # float64 maps whose neighbouring cells differ by less than float32 resolution (near-ties that only float64 arithmetic orders)
         maps = maps.astype(np.float64) + r.integers(0, 7, maps.shape) * 1e-10  # non-negative: same-sign patches stay same-sign
@@ -86,6 +90,8 @@ def check(ctx, case):
     oracle = pc.brute_local_peaks(maps.astype(np.float64), float(dt(thr)))
     got_cells = [(s, c, int(y), int(x)) for s, c, y, x, v in got]
     ctx.count("oracle_peaks", len(oracle))
+    if len(oracle) > 512:
+        ctx.count("calls_with_more_than_512_peaks")
     if any(float(int(y)) != y or float(int(x)) != x for s, c, y, x, v in got):
         ctx.violation("non-integral-rough", "rough peaks are not grid cells", small)
     elif len(set(got_cells)) != len(got_cells):
@@ -158,6 +164,7 @@ def finalize(ctx):
     ctx.require("refined_points", 10)
     ctx.require("solo_calls", 10)
     ctx.require("float64_cases", 5)
+    ctx.require("calls_with_more_than_512_peaks", 2)
 
 
 LEVEL_TEXT = ("Every real find_local_peaks_rough / find_local_peaks call on seeded maps is compared with a brute-force neighbour scan (soundness, completeness, "
